@@ -14,17 +14,30 @@ from typing import Iterator
 
 
 import asyncio
+import contextvars
+import time
 
 # When the coroutine runs inside a real asyncio event loop (file system loaders use
 # run_in_executor) the drops must suspend through asyncio instead of a bare yield.
 USE_ASYNCIO = [False]
 
 
+# The controller of a scheduled run on a real event loop (see `_Controller`); None otherwise.
+CONTROLLER: list[Any] = [None]
+_OWNER: contextvars.ContextVar[int] = contextvars.ContextVar("lv_sched_owner", default=-1)
+
+
 class Yield:
     """An awaitable that suspends the running coroutine exactly once."""
 
     def __await__(self) -> Iterator[Any]:
-        if USE_ASYNCIO[0]:
+        ctl = CONTROLLER[0]
+        if ctl is not None:
+            # a gate: the controller decides when the owner goes on
+            fut = ctl.loop.create_future()
+            ctl.blocked.append((_OWNER.get(), fut))
+            yield from fut.__await__()
+        elif USE_ASYNCIO[0]:
             yield from asyncio.sleep(0).__await__()
         else:
             yield self
@@ -150,7 +163,7 @@ class Task:
             self.error = err
 
 
-def run_alone(coro: Coroutine[Any, Any, Any], max_steps: int = 100000) -> Task:
+def run_alone_bare(coro: Coroutine[Any, Any, Any], max_steps: int = 100000) -> Task:
     task = Task(coro)
     while not task.done and task.steps < max_steps:
         task.step()
@@ -161,7 +174,7 @@ def run_alone(coro: Coroutine[Any, Any, Any], max_steps: int = 100000) -> Task:
     return task
 
 
-def run_schedule(coros: list[Coroutine[Any, Any, Any]], schedule: list[int]) -> list[Task]:
+def run_schedule_bare(coros: list[Coroutine[Any, Any, Any]], schedule: list[int]) -> list[Task]:
     """Interleave `coros`; schedule[i] % (number of unfinished tasks) picks who steps next.
     When the schedule is exhausted the rest runs round-robin."""
     tasks = [Task(c) for c in coros]
@@ -207,7 +220,7 @@ def interleavings(counts: list[int], limit: int = 200) -> list[list[int]]:
     return out
 
 
-def run_explicit(coros: list[Coroutine[Any, Any, Any]], order: list[int]) -> list[Task]:
+def run_explicit_bare(coros: list[Coroutine[Any, Any, Any]], order: list[int]) -> list[Task]:
     """Step tasks in the explicit order of task indices (skipping finished ones), then
     finish whatever is left round-robin."""
     tasks = [Task(c) for c in coros]
@@ -221,3 +234,149 @@ def run_explicit(coros: list[Coroutine[Any, Any, Any]], order: list[int]) -> lis
                 t.step()
         guard += 1
     return tasks
+
+
+# --------------------------------------------------------------------------- scheduled runs on a real event loop
+#
+# The bare steppers above drive coroutines with send(None): code under test that uses an asyncio primitive
+# (ensure_future, a Future shared by several waiters, a Lock, run_in_executor) cannot run under them at all.
+# The runs below give the same deterministic control - one suspension point per `Yield`, an interleaving is an
+# explicit list of choices - on a real event loop: every `Yield` parks its coroutine on a future (a gate) that
+# only the controller resolves, and the controller acts only when the loop has nothing else left to run.  Gates
+# reached from a child task (ensure_future inside the code under test) belong to the top-level coroutine that
+# spawned it (context variables are inherited by child tasks).
+
+_LOOP: list[Any] = [None]
+
+
+def _loop() -> Any:
+    if _LOOP[0] is None or _LOOP[0].is_closed():
+        _LOOP[0] = asyncio.new_event_loop()
+    return _LOOP[0]
+
+
+class _Controller:
+    def __init__(self, loop: Any) -> None:
+        self.loop = loop
+        self.blocked: list[tuple[int, Any]] = []
+
+    async def quiesce(self) -> None:
+        """Return when no callback but ours is ready to run: every coroutine is parked on a gate,
+        finished, or waiting for something outside the loop."""
+        ready = getattr(self.loop, "_ready", None)
+        if ready is None:  # not a BaseEventLoop: a fixed number of turns
+            for _ in range(50):
+                await asyncio.sleep(0)
+            return
+        await asyncio.sleep(0)
+        n = 0
+        while len(ready) > 0 and n < 100000:
+            await asyncio.sleep(0)
+            n += 1
+
+    def release(self, owner: int) -> bool:
+        for k, (o, fut) in enumerate(self.blocked):
+            if o == owner:
+                del self.blocked[k]
+                if not fut.done():
+                    fut.set_result(None)
+                return True
+        return False
+
+
+def _run_on_loop(coros: list[Coroutine[Any, Any, Any]], chooser: Any, max_steps: int = 200000) -> list[Task]:
+    """chooser(owners_blocked: list[int], live: list[int]) -> owner index to release next."""
+    loop = _loop()
+    ctl = _Controller(loop)
+    tasks = [Task(c) for c in coros]
+
+    async def wrapped(i: int, coro: Coroutine[Any, Any, Any]) -> None:
+        _OWNER.set(i)
+        t = tasks[i]
+        try:
+            await Yield()  # starting a coroutine is a scheduling choice as well
+            t.result = await coro
+        except asyncio.CancelledError:
+            t.error = RuntimeError("cancelled: too many suspensions or stuck")
+        except BaseException as err:  # noqa: BLE001
+            t.error = err
+        t.done = True
+
+    async def main() -> None:
+        ats = [loop.create_task(wrapped(i, c)) for i, c in enumerate(coros)]
+        steps = 0
+        stuck_since: float | None = None
+        try:
+            while True:
+                await ctl.quiesce()
+                if all(t.done for t in tasks):
+                    return
+                owners = sorted({o for o, _ in ctl.blocked})
+                if not owners:
+                    # waiting for something outside the loop (an executor thread): give it real time
+                    stuck_since = stuck_since or time.monotonic()
+                    if time.monotonic() - stuck_since > 20:
+                        return
+                    await asyncio.sleep(0.001)
+                    continue
+                stuck_since = None
+                steps += 1
+                if steps > max_steps:
+                    return
+                live = [i for i, t in enumerate(tasks) if not t.done]
+                pick = chooser(owners, live)
+                if ctl.release(pick):
+                    tasks[pick].steps += 1
+        finally:
+            for a in asyncio.all_tasks(loop):
+                if a is not asyncio.current_task() and not a.done():
+                    a.cancel()
+            for _ in range(3):
+                await asyncio.sleep(0)
+
+    prev = CONTROLLER[0]
+    CONTROLLER[0] = ctl
+    try:
+        loop.run_until_complete(main())
+    finally:
+        CONTROLLER[0] = prev
+    for t in tasks:
+        if not t.done:
+            t.done = True
+            t.error = t.error or RuntimeError("too many suspensions")
+        t.steps = max(t.steps - 1, 0)  # the start gate is not a suspension of the coroutine itself
+    return tasks
+
+
+def run_alone(coro: Coroutine[Any, Any, Any], max_steps: int = 100000) -> Task:
+    return _run_on_loop([coro], lambda owners, live: owners[0], max_steps)[0]
+
+
+def run_schedule(coros: list[Coroutine[Any, Any, Any]], schedule: list[int]) -> list[Task]:
+    """Interleave `coros`; schedule[i] % (number of parked coroutines) picks who goes on next.
+    When the schedule is exhausted the rest runs round-robin."""
+    state = {"i": 0}
+
+    def chooser(owners: list[int], live: list[int]) -> int:
+        i = state["i"]
+        state["i"] = i + 1
+        return owners[(schedule[i] if i < len(schedule) else i) % len(owners)]
+
+    return _run_on_loop(coros, chooser)
+
+
+def run_explicit(coros: list[Coroutine[Any, Any, Any]], order: list[int]) -> list[Task]:
+    """Let coroutines go on in the explicit order of task indices (entries naming a coroutine that is
+    finished or not parked are skipped), then finish whatever is left round-robin."""
+    state = {"i": 0, "rr": 0}
+
+    def chooser(owners: list[int], live: list[int]) -> int:
+        while state["i"] < len(order):
+            j = order[state["i"]]
+            state["i"] += 1
+            if j in owners:
+                return j
+        state["rr"] += 1
+        return owners[state["rr"] % len(owners)]
+
+    return _run_on_loop(coros, chooser)
